@@ -5,10 +5,18 @@ PY_SUBSET = ('Python semantics of the executed subset as encoded by pyvc.symexec
              'sequences as len/at theories, path-by-path execution, loops cut at invariants)')
 
 PROPS = {
+    'C18': {
+        'level': 'proof',
+        'proof': [('contracts.modelsearch', None)],
+        'bounded': [],
+        'assumptions': [PY_SUBSET],
+        'explanation': 'peripheral step rule of the stepwise search proved against docs/modelsearch.rst',
+    },
     'C04': {
         'level': 'proof',
         'proof': [('contracts.lcs', None), ('contracts.nm_update', None)],
-        'bounded': [],
+        'bounded': [('contracts.lcs', 'src/pharmpy/internals/sequence/lcs.py:diff',
+                     'all pairs of sequences over {a,b,c} up to length 4 (quick) / 5 (thorough)')],
         'assumptions': [PY_SUBSET],
         'explanation': 'edit-script correctness of lcs.diff/_diff/_matrix proved for all sequences',
     },
